@@ -18,7 +18,7 @@
    label twice, and no tensor object was added as a view to a network that
    already held it. *)
 From Coq Require Import List Arith Bool PeanoNat.
-From QV Require Import C02.Model C02.Lists C02.Inv C02.Step C02.Final C02.Combine.
+From QV Require Import C02.Model C02.Lists C02.Inv C02.Step C02.Final C02.Combine C02.OSet.
 Import ListNotations.
 
 Theorem C02_inv_init : h_ok h0 = true /\ Good h0 /\ Inv h0.
@@ -80,6 +80,56 @@ Theorem C02_select_missing_tag_rejected : forall x xmap xs w C, map_ok xmap C ->
   (get_tids_from x xmap xs w = None <-> exists g, In g xs /\ forall tid, ~ C tid g).
 Proof. exact get_tids_from_rejects. Qed.
 Print Assumptions C02_select_missing_tag_rejected.
+
+(* ---- quimb.utils.oset: the list model (tied to the implementation by the oset
+   correspondence stream) refines the finite-set operations, stays duplicate
+   free and preserves first-insertion order; n-ary forms for ANY number of
+   arguments ---- *)
+Theorem C02_oset_update_union_refines : forall others a, NoDup a ->
+  NoDup (o_update a others)
+  /\ (forall y, In y (o_update a others) <-> In y a \/ exists o, In o others /\ In y o)
+  /\ (exists t, o_update a others = a ++ t /\ subseq t (concat others)).
+Proof. exact o_update_spec. Qed.
+Print Assumptions C02_oset_update_union_refines.
+
+Theorem C02_oset_intersection_refines : forall a others, NoDup a ->
+  NoDup (o_inter a others)
+  /\ (forall y, In y (o_inter a others) <-> In y a /\ forall o, In o others -> In y o)
+  /\ subseq (o_inter a others) a.
+Proof. exact o_inter_spec. Qed.
+Print Assumptions C02_oset_intersection_refines.
+
+Theorem C02_oset_difference_refines : forall a others, NoDup a ->
+  NoDup (o_diff a others)
+  /\ (forall y, In y (o_diff a others) <-> In y a /\ forall o, In o others -> ~ In y o)
+  /\ subseq (o_diff a others) a.
+Proof. exact o_diff_spec. Qed.
+Print Assumptions C02_oset_difference_refines.
+
+Theorem C02_oset_add_discard_build_refine : forall x a l, NoDup a ->
+  (NoDup (oadd x a) /\ (forall y, In y (oadd x a) <-> y = x \/ In y a) /\ exists t, oadd x a = a ++ t)
+  /\ (NoDup (odiscard x a) /\ (forall y, In y (odiscard x a) <-> In y a /\ y <> x) /\ subseq (odiscard x a) a)
+  /\ (NoDup (oset_of l) /\ (forall y, In y (oset_of l) <-> In y l) /\ subseq (oset_of l) l).
+Proof. intros x a l H. exact (conj (oadd_spec x a H) (conj (odiscard_spec x a H) (oset_of_spec l))). Qed.
+Print Assumptions C02_oset_add_discard_build_refine.
+
+Theorem C02_oset_pop_and_eq : forall a b, NoDup a -> NoDup b ->
+  ((forall x r, o_popleft a = Some (x, r) -> a = x :: r /\ NoDup r)
+   /\ (forall x r, o_popright a = Some (x, r) -> a = r ++ [x] /\ NoDup r)
+   /\ (o_popleft a = None <-> a = []) /\ (o_popright a = None <-> a = []))
+  /\ (set_eqb a b = true <-> forall x, In x a <-> In x b).
+Proof. intros a b Ha Hb. exact (conj (o_pop_spec a Ha) (o_eq_spec a b Ha Hb)). Qed.
+Print Assumptions C02_oset_pop_and_eq.
+
+(* every method sequence keeps every oset duplicate free *)
+Theorem C02_oset_machine_wellformed : forall ops s,
+  Forall (@NoDup nat) s ->
+  Forall (@NoDup nat) (fold_left (fun s o => match ostep s o with Some (s', _) => s' | None => s end) ops s).
+Proof.
+  induction ops as [|o ops IH]; simpl; intros s H; auto. apply IH.
+  destruct (ostep s o) as [[s' res]|] eqn:E; auto. exact (ostep_wf s o s' res H E).
+Qed.
+Print Assumptions C02_oset_machine_wellformed.
 
 (* the renaming applied by add_tensor_network(check_collisions=True) (= the
    model's add_net, see Combine.add_net_uses_mangle_map): labels outside the
